@@ -36,6 +36,8 @@ pub const C01_KINDS: &[&str] = &[
 	"amount-changed-reproved",
 	"coinbase-kernel-bad-signature",
 	"coinbase-inflated-excess-adjusted",
+	"hdr-offset-zero",
+	"hdr-offset-random",
 ];
 pub const C13_KINDS: &[&str] = &["immature-coinbase", "immature-with-mature-coinbase", "lock-height-future", "nrd-too-recent"];
 pub const C04_KINDS: &[&str] = &[
@@ -368,6 +370,7 @@ impl World {
 				Some(self.push_bad(parent, b, kind, false))
 			}
 			// ---------------------------------------------------------------- C01
+			"hdr-offset-zero" | "hdr-offset-random" => self.gen_bad_offset(kind),
 			k if C01_KINDS.contains(&k) => self.gen_bad_value(k),
 			// ---------------------------------------------------------------- C04
 			k if C04_KINDS.contains(&k) => self.gen_bad_header(k),
@@ -667,6 +670,33 @@ impl World {
 		}
 		let _ = prev;
 		self.mine(&mut b, diff);
+		Some(self.push_bad(parent, b, kind, false))
+	}
+
+	/// C01: the header's accumulated kernel offset is the block's only statement about the offset
+	/// side of the balance equation. A coinbase-only block on a chain whose accumulated offset is
+	/// non-zero, with the header's total reset to zero (the block then balances on its own with a zero
+	/// block offset) or replaced by a random scalar; honest roots, mined.
+	fn gen_bad_offset(&mut self, kind: &str) -> Option<usize> {
+		let zero = grin_keychain::BlindingFactor::zero();
+		let c: Vec<usize> = self.blocks.iter().filter(|b| b.block.header.total_kernel_offset != zero).map(|b| b.id).collect();
+		if c.is_empty() {
+			return None;
+		}
+		let parent = *self.rng.pick(&c);
+		let height = self.blocks[parent].height + 1;
+		let (out, kern, _) = self.wallet.coinbase(0, height);
+		let dt = self.draw_dt();
+		let fd = self.draw_free_diff();
+		let (mut b, diff) = self.pre_block(parent, &[], dt, fd, out, kern).ok()?;
+		self.builder.chain().set_txhashset_roots(&mut b).ok()?;
+		b.header.total_kernel_offset = if kind == "hdr-offset-zero" {
+			zero
+		} else {
+			grin_keychain::BlindingFactor::from_secret_key(self.wallet.secret())
+		};
+		self.mine(&mut b, diff);
+		*self.stats.entry(format!("bad_{}", kind)).or_insert(0) += 1;
 		Some(self.push_bad(parent, b, kind, false))
 	}
 
